@@ -147,3 +147,38 @@ CHECKS["C07"] = dict(
     replay=replay_index("c07"),
     require=dict(enabled_chains=300, disabled_chains=100),
 )
+
+
+def _c19_prepare(tier, seed, env):
+    import subprocess, os, sys
+    sys.path.insert(0, os.path.join(env["ROOT"], "lib"))
+    import c19gen
+    gdir = os.path.join(env["HARNESS"], "cmd", "c19gen")
+    n = c19gen.gen(os.path.join(gdir, "main.go"), tier, seed, "default")
+    ok = True
+    for out, extra in (("c19bin", []), ("c19bin-noinl", ["-gcflags=all=-l"])):
+        p = subprocess.run(["go", "build", "-tags", "verif"] + extra + ["-o", os.path.join(env["BUILD"], out), "./cmd/c19gen"],
+                           cwd=env["HARNESS"], env=env["GOENV"], capture_output=True, text=True)
+        if p.returncode != 0:
+            env["log"]("C19 generated program failed to build (%s):\n%s" % (out, (p.stdout + p.stderr)[-3000:]))
+            ok = False
+    env["log"]("C19: generated %d statements" % n)
+    return ok
+
+
+CHECKS["C19"] = dict(
+    level="exploration",
+    level_text=("ground-truth monitor: a Go program generated at check time contains one statement per combination of caller mechanism x entry "
+                "point x finalizer x hooks x wrapper depth; on the same source line as the call whose position must be reported it records "
+                "runtime.Caller, and the caller field of the emitted event is compared with it. Built twice (default inlining and -gcflags=all=-l)."),
+    technique="runtime monitoring: generated program compares the emitted caller field with runtime.Caller captured on the same source line",
+    prepare=_c19_prepare,
+    stages=lambda tier: [dict(variant="c19bin", cmd="c19", shards=4, timeout=1200),
+                         dict(variant="c19bin-noinl", cmd="c19", shards=4, timeout=1200)],
+    rule=("one case = one generated statement (mechanism in {Event.Caller(k), CallerSkipFrame(k)+Caller, Context.Caller+CallerSkipFrame(k), "
+          "CallerWithSkipFrameCount(2+k), global CallerSkipFrameCount=2+k with either} x entry in {Trace..Error, Log, WithLevel, Err, Print/Printf/"
+          "Println, Logger.Write, package log functions} x finalizer x {no hooks, hooks before and after} x wrapper depth 0..2 (quick) / 0..4 "
+          "(thorough), half of the wrappers //go:noinline); all non-trivial; distinct by statement id"),
+    assumptions=["default CallerMarshalFunc (file:line)", "runtime.Caller(1) inside here() is the ground truth for 'the user's line'"],
+    require=dict(statements_checked=1000),
+)
